@@ -63,26 +63,26 @@ var illegalTags = map[string]bool{
 }
 
 type hist struct {
-	c       *evid.Case
-	cl      *dsim.Cluster
-	env     *dsim.Env
-	rng     *rand.Rand
-	role    spectypes.BeaconRole
-	n       int
-	mode    string
-	blinded bool
-	deneb   bool
-	slots   []phase0.Slot
-	cur     int
-	next    map[spectypes.OperatorID]int // next slot index an operator will be started on
-	startAt map[spectypes.OperatorID][]int
-	byz     []spectypes.OperatorID
-	vpk     []byte
-	id      spectypes.MessageID
-	seenB   map[spectypes.OperatorID]int
-	props   map[phase0.Slot][][]byte                // proposed values seen per height
-	pre     map[phase0.Slot][]*spectypes.SSVMessage // honest pre-consensus broadcasts per slot
-	post    map[phase0.Slot][]*spectypes.SSVMessage
+	c         *evid.Case
+	cl        *dsim.Cluster
+	env       *dsim.Env
+	rng       *rand.Rand
+	role      spectypes.BeaconRole
+	n         int
+	mode      string
+	blinded   bool
+	deneb     bool
+	slots     []phase0.Slot
+	cur       int
+	next      map[spectypes.OperatorID]int // next slot index an operator will be started on
+	startAt   map[spectypes.OperatorID][]int
+	byz       []spectypes.OperatorID
+	vpk       []byte
+	id        spectypes.MessageID
+	seenB     map[spectypes.OperatorID]int
+	props     map[phase0.Slot][][]byte                // proposed values seen per height
+	pre       map[phase0.Slot][]*spectypes.SSVMessage // honest pre-consensus broadcasts per slot
+	post      map[phase0.Slot][]*spectypes.SSVMessage
 	delivered map[string]int
 	directed  string
 	played    bool
